@@ -390,14 +390,17 @@ class Lin:
         stmts = list(s.body) + list(s.orelse)
         if not stmts:
             return False
+        def widen(v):
+            return isinstance(v, ast.Call) and isinstance(v.func, ast.Attribute) and v.func.attr == "astype" and isinstance(v.func.value, ast.Name) \
+                and len(v.args) == 1 and isinstance(v.args[0], ast.Name) and any(v.args[0].id == d and v.func.value.id in srcs for d, srcs in wide)
         for st in stmts:
-            if not isinstance(st, ast.Return) or st.value is None:
+            if isinstance(st, ast.Assign) and len(st.targets) == 1 and isinstance(st.targets[0], ast.Name):
+                v = st.value       # `tmp = buf.astype(dtype)` / `buf = buf.astype(dtype)`: the same widening, named
+            elif isinstance(st, ast.Return) and st.value is not None:
+                v = st.value
+            else:
                 return False
-            v = st.value
-            if isinstance(v, ast.Name):
-                continue
-            if isinstance(v, ast.Call) and isinstance(v.func, ast.Attribute) and v.func.attr == "astype" and isinstance(v.func.value, ast.Name) \
-                    and len(v.args) == 1 and isinstance(v.args[0], ast.Name) and any(v.args[0].id == d and v.func.value.id in srcs for d, srcs in wide):
+            if isinstance(v, ast.Name) or widen(v):
                 continue
             return False
         return True
